@@ -7,9 +7,12 @@ package main
 //     proves it inside the region as well (the defect was repaired) nothing is printed.
 
 import (
+	"encoding/json"
 	"os"
 	"os/exec"
 	"path/filepath"
+	"regexp"
+	"strconv"
 	"strings"
 )
 
@@ -96,6 +99,123 @@ func replayKnown(kf KnownFinding) (present bool, out string) {
 	return err != nil && strings.Contains(string(b), "--- FAIL"), trunc(string(b), 3000)
 }
 
+// ---------------------------------------------------------------------------------------------------------------
+// Replay of a counterexample on the real code.
+//
+// For the functions listed in /verif/replay/drivers/index.json the model of a failed obligation is projected on the
+// listed input terms (get-value on the kept query), written to a JSON file, and a driver test is injected into the
+// function's package with `go test -overlay`. The driver builds the input, runs the REAL function and compares its result
+// with an independent Go statement of the property clause; it prints REPLAY-CONFIRMED when the real code contradicts it.
+
+type replayDriver struct {
+	Match  string            `json:"match"`  // regexp on the contract key of the function under verification
+	Kinds  []string          `json:"kinds"`  // obligation kinds the driver can replay (post, frame, ...)
+	Pkg    string            `json:"pkg"`    // package directory relative to the repository
+	File   string            `json:"file"`   // driver test file relative to /verif
+	Run    string            `json:"run"`    // -run regexp
+	Inputs map[string]string `json:"inputs"` // name -> SMT term over the entry values of the parameters
+}
+
+func loadDrivers() []replayDriver {
+	var ds []replayDriver
+	data, err := os.ReadFile(filepath.Join(verifDir, "replay", "drivers", "index.json"))
+	if err == nil {
+		json.Unmarshal(data, &ds)
+	}
+	return ds
+}
+
+var rvRe = regexp.MustCompile(`\(rv!(\d+)\s+(\(-\s*\d+\)|-?\d+|true|false)\)`)
+
+// modelValues re-solves the kept query with one fresh constant per requested term (sort Int unless the term is written
+// "Bool:<term>") and reads the constants' values from the model.
+func modelValues(file string, terms []string) (map[string]string, string) {
+	data, err := os.ReadFile(file)
+	if err != nil {
+		return nil, err.Error()
+	}
+	txt := string(data)
+	if i := strings.LastIndex(txt, "(check-sat)"); i >= 0 {
+		txt = txt[:i]
+	}
+	var names []string
+	for k, t := range terms {
+		sort := "Int"
+		if strings.HasPrefix(t, "Bool:") {
+			sort, t = "Bool", strings.TrimPrefix(t, "Bool:")
+		}
+		n := "rv!" + strconv.Itoa(k)
+		txt += "(declare-const " + n + " " + sort + ")\n(assert (= " + n + " " + t + "))\n"
+		names = append(names, n)
+	}
+	txt = "(set-option :produce-models true)\n" + txt + "(check-sat)\n(get-value (" + strings.Join(names, " ") + "))\n"
+	vf := strings.TrimSuffix(file, ".smt2") + ".values.smt2"
+	os.WriteFile(vf, []byte(txt), 0o644)
+	out, _ := exec.Command("z3-new", "-T:30", vf).CombinedOutput()
+	o := strings.TrimSpace(string(out))
+	if !strings.HasPrefix(o, "sat") {
+		return nil, "no model from z3-new: " + trunc(o, 300)
+	}
+	vals := map[string]string{}
+	for _, m := range rvRe.FindAllStringSubmatch(o, -1) {
+		k, _ := strconv.Atoi(m[1])
+		v := m[2]
+		if strings.HasPrefix(v, "(") {
+			v = "-" + strings.TrimSpace(strings.Trim(v, "()-"))
+		}
+		if k < len(terms) {
+			vals[terms[k]] = v
+		}
+	}
+	return vals, ""
+}
+
 func tryReplay(s *Session, prop string, g *OblGroup, fo *Obligation) (bool, map[string]interface{}) {
-	return false, map[string]interface{}{"status": "no replay driver for this obligation kind yet"}
+	if fo.Result != "sat" || fo.File == "" {
+		return false, map[string]interface{}{"status": "the solver gave no model for this obligation (" + fo.Result + ")"}
+	}
+	for _, d := range loadDrivers() {
+		if ok, _ := regexp.MatchString(d.Match, g.Func); !ok {
+			continue
+		}
+		kindOK := len(d.Kinds) == 0
+		for _, k := range d.Kinds {
+			kindOK = kindOK || k == g.Kind
+		}
+		if !kindOK {
+			continue
+		}
+		names := sortedKeys(d.Inputs)
+		var terms []string
+		for _, n := range names {
+			terms = append(terms, d.Inputs[n])
+		}
+		vals, why := modelValues(fo.File, terms)
+		if vals == nil {
+			return false, map[string]interface{}{"status": "model projection failed: " + why}
+		}
+		input := map[string]string{"obligation": g.Name, "clause": g.Clause}
+		for _, n := range names {
+			input[n] = vals[d.Inputs[n]]
+		}
+		dir := filepath.Join(outDir(), "replay")
+		os.MkdirAll(dir, 0o755)
+		inFile := filepath.Join(dir, sanitize(g.Name)+".input.json")
+		data, _ := json.MarshalIndent(input, "", " ")
+		os.WriteFile(inFile, data, 0o644)
+		cmd := exec.Command("sh", filepath.Join(verifDir, "replay", "run_overlay.sh"), d.Pkg, filepath.Join(verifDir, d.File), d.Run, repoDir)
+		cmd.Env = append(os.Environ(), "GOFLAGS=", "GOPROXY=off", "GOSUMDB=off", "GOTOOLCHAIN=local", "VERIF_REPLAY_INPUT="+inFile)
+		out, _ := cmd.CombinedOutput()
+		confirmed := strings.Contains(string(out), "REPLAY-CONFIRMED")
+		var lines []string
+		for _, l := range strings.Split(string(out), "\n") {
+			if strings.Contains(l, "REPLAY-") {
+				lines = append(lines, strings.TrimSpace(l))
+			}
+		}
+		return confirmed, map[string]interface{}{"driver": d.File, "input": input, "input_file": inFile, "driver_output": lines,
+			"status": map[bool]string{true: "the real code contradicts the clause on this input", false: "the real code agrees with the clause on the model's input (abstraction too coarse, or the driver does not cover this clause)"}[confirmed],
+			"raw": trunc(string(out), 1500)}
+	}
+	return false, map[string]interface{}{"status": "no replay driver for this function / obligation kind"}
 }
